@@ -26,6 +26,9 @@ func builtinNewRegExp(obj *object, argumentList []Value) Value {
 
 func builtinRegExpToString(call FunctionCall) Value {
 	thisObject := call.thisObject()
+	if thisObject.class != classRegExpName {
+		panic(call.runtime.panicTypeError("RegExp.prototype.toString called on a non-RegExp object"))
+	}
 	source := thisObject.get("source").string()
 	flags := []byte{}
 	if thisObject.get("global").bool() {
